@@ -199,7 +199,9 @@ def h_orig_bam_busy(ex, prop, L=250, burst=12, tx='1/2000', interval=None):
 
 
 # --------------------------------------------------------------------------- peer originates RTS/CTS
-def h_resp_cmdt(ex, prop, L, windows='sym', session=0):
+def h_resp_cmdt(ex, prop, L, windows='sym', session=0, prefix=None):
+    """prefix = k: very long messages (24-bit size and segment fields) - only the first k segments are exchanged, then the
+    reference originator aborts; claimed: the responder keeps granting in sequence and does not acknowledge early"""
     c03, c09 = prop == 'C03', prop == 'C09'
     tag = 'c03' if c03 else 'c09'
     wa = ex.fresh_int('win_stack', 1, 255) if windows == 'sym' else windows
@@ -208,11 +210,11 @@ def h_resp_cmdt(ex, prop, L, windows='sym', session=0):
     pf = ex.fresh_int('pf', 0, 239)
     for p in PROTOCOL_PF_FD:
         ex.assume(pf != p)
-    payload = sym_payload(ex, 'b', L)
+    payload = sym_payload(ex, 'b', L) if prefix is None else sym_payload(ex, 'b', 8) + [(5 * j) % 256 for j in range(prefix * 60 + 60)]
     nseg = tp22.nsegments(L)
     pgn0 = dp * 65536 + pf * 256
     limit = ex.fresh_int('rts_limit', 1, 255)
-    st = {'sent': 0, 'done': False, 'eoma': 0, 'cts': 0, 'eoms_sent': False}
+    st = {'sent': 0, 'done': False, 'eoma': 0, 'cts': 0, 'eoms_sent': False, 'stopped': False}
 
     def send_eoms():
         st['eoms_sent'] = True
@@ -229,7 +231,7 @@ def h_resp_cmdt(ex, prop, L, windows='sym', session=0):
         w.after(ex.fresh_real('reply', REPLY[0], REPLY[1]), lambda: one(0), 'peer')
 
     def on_frame(f):
-        if f['src'] != 'S':
+        if f['src'] != 'S' or st['stopped']:
             return
         k = kind_of(f)
         d = f['data']
@@ -253,6 +255,12 @@ def h_resp_cmdt(ex, prop, L, windows='sym', session=0):
                          {'data': d, 'sent': st['sent']})
             ex.claim(tag + '.fd.resp.cts_while_data_outstanding', remaining > 0)
             cnt = max(0, min(concretize(cm['b7']), remaining))
+            if prefix is not None and st['sent'] >= prefix:
+                # enough of the long message has been exchanged: the originator gives up
+                st['stopped'] = True
+                st['done'] = True
+                inject(w, n, tp22.PF_CM, tp22.cm_frame(tp22.ABORT, session, 0xFFFFFF, 0xFFFFFF, 0xFF, 250, pgn0))
+                return
             if cnt > 0:
                 send_dts(cnt, st['sent'] + 1)
         elif ctrl == tp22.EOMA:
@@ -268,7 +276,12 @@ def h_resp_cmdt(ex, prop, L, windows='sym', session=0):
     w.frame_hooks.append(on_frame)
     w.run(until=T('1/100'))
     inject(w, n, tp22.PF_CM, tp22.cm_frame(tp22.RTS, session, L, nseg, limit, 0, pgn0))
-    w.run(until=w.now + T(3) + T('4/10') * (nseg + 1))
+    w.run(until=w.now + T(3) + T('4/10') * ((nseg if prefix is None else prefix + 260) + 1))
+    if prefix is not None:
+        ex.claim(tag + '.fd.resp.long_message_keeps_being_granted', st['stopped'] is True and st['eoma'] == 0, {'sent': st['sent'], 'cts': st['cts'], 'eoma': st['eoma'], 'size': L})
+        ex.claim('job_thread_alive', n.job_alive() and not n.notify_errors, {'errors': [repr(e) for e in n.notify_errors][:2]})
+        ex.witness()
+        return
     ex.claim(tag + '.fd.resp.acknowledged', st['eoma'] == 1, {'eoma': st['eoma'], 'sent': st['sent'], 'cts': st['cts']})
     if c03:
         ex.claim('c03.fd.resp.delivered_once', len(rx) == 1, {'deliveries': len(rx)})
@@ -373,6 +386,10 @@ def jobs(prop, tier):
             J('h_orig_cmdt', L=L, windows=255)
     # paced connection-mode transfer (minimum_tp_rts_cts_dt_interval) against a peer that grants less than remains
     J('h_orig_cmdt', L=245, interval='1/100')
+    # messages beyond 65535 bytes / 255 segments: third byte of the size field, second byte of the segment fields
+    if prop == 'C03':
+        J('h_resp_cmdt', L=65600, prefix=8, windows=2)
+        J('h_resp_cmdt', L=16000000, prefix=5, windows=1)
     J('h_resp_cmdt', L=181, session=7)
     J('h_orig_cmdt', L=181, holds=[1, 0, 1])
     # retransmission requests: the responder re-requests segments it already received
